@@ -36,6 +36,9 @@ CHECKS = {
  'C10': dict(level='exploration', technique='runtime monitor: history-independence oracle (every call vs fresh instance), instance-state fingerprint invariant at quiescent points, seeded line-level thread scheduler (sys.monitoring) with sequential-result oracle',
              text='Random call histories (parse/lex/scan/interactive, failing and abandoned calls, other instances built in between, Indenter streams ending in DedentError or abandoned mid-block) on one instance: every result must equal the fresh-instance result and the digest of all instance-reachable state must stay constant after warm-up (lazy caches may appear once). Threads: 2-4 threads use a fresh instance under thousands of seeded, replayable statement-level interleavings of the lexer/front-end code; every thread must get the sequential result.',
              note='Interleavings are sampled, at statement granularity, in the instrumented functions; callbacks are pure. Post-lexer fields are excluded from the digest (judged by behaviour).', ref='4 C10'),
+ 'C12': dict(level='fault_enumeration', technique='fault injection on the real cache file (truncation offsets, bit flips, spliced/foreign payloads, writer killed in a subprocess, key histories incl. python 3.11) with behaviour-vector oracle vs uncached build and cache-served observation',
+             text='Every fault state of the cache file is followed by a real construction whose behaviour vector (canonical outcomes with positions on a fixed input set, terminal table, rules) must equal the uncached build; the constructor must not raise; a parser cached for another key must not be served (observed: load_grammar called or not); the file left behind must be a valid cache. Truncation offsets are enumerated (quick: every 16th + whole prologue; thorough: every offset), other faults sampled.',
+             note='Known findings F-C12-1 (payload not integrity-checked) and F-C12-2 (edit_terminals / postlex.always_accept neither hashed nor re-applied). Damaged-payload loads run in a forked child under memory and time limits.', ref='4 C12'),
  'C20': dict(level='exploration', technique='differential runtime monitor: forest transformers/visitors vs reference derivation enumeration; step budget + on_cycle observation on cyclic forests',
              text="For every accepted input the SPPF returned under ambiguity='forest' is walked by TreeForestTransformer (both modes), a counting ForestTransformer and a ForestVisitor; results are compared with the reference enumeration over the compiled rules (acyclic) or validated under a step budget with on_cycle observed (cyclic).",
              note='Trusts reference enumerator over Lark.rules (the forest names helper rules).', ref='4 C20'),
